@@ -90,6 +90,9 @@ struct Obs {
     invocations: usize,
     /// probe on the first (CASE) session and on the second (PASE) session
     probe: [Option<String>; 2],
+    /// a new exchange opened on the first session right after that session was lost / expired at the
+    /// device, while its other exchanges are still in flight
+    early_probe: Option<String>,
     all_done: bool,
 }
 
@@ -155,6 +158,8 @@ impl ExchangeHandler for Handler {
 
 struct World {
     exec: Exec,
+    a_task: usize,
+    early: Rc<std::cell::Cell<bool>>,
     net: Net,
     obs: Rc<RefCell<Obs>>,
     _h: Owned<Handler>,
@@ -228,14 +233,23 @@ fn build(cfg: &Cfg, start_delay_ms: u64, pool3: bool) -> World {
             }
         });
     }
-    {
+    let early = Rc::new(std::cell::Cell::new(false));
+    let a_task = {
         let (send, recv) = (net.end(0), net.end(0));
         let obs2 = obs.clone();
         let exs = cfg.exchanges.clone();
         let unreliable_last = cfg.unreliable_last;
         let n_exchanges = cfg.exchanges.len();
+        let early2 = early.clone();
         exec.spawn("A", async move {
             let c = nodes::crypto(SeededRng::new(104));
+            let obs4 = obs2.clone();
+            let early_probe = async {
+                core::future::poll_fn(|_| if early2.get() { core::task::Poll::Ready(()) } else { core::task::Poll::Pending }).await;
+                let r = one_exchange(ma, 397, false, 0x79, Beh::Prompt).await;
+                obs4.borrow_mut().early_probe = Some(r);
+                core::future::pending::<()>().await
+            };
             let client = async {
                 if start_delay_ms > 0 {
                     Timer::after(Duration::from_millis(start_delay_ms)).await;
@@ -261,10 +275,10 @@ fn build(cfg: &Cfg, start_delay_ms: u64, pool3: bool) -> World {
                 obs2.borrow_mut().probe[1] = Some(r);
                 core::future::pending::<()>().await
             };
-            let _ = select(ma.run(&c, send, recv, NoNetwork), client).await;
-        });
-    }
-    World { exec, net, obs, _h: h, a, b }
+            let _ = embassy_futures::select::select3(ma.run(&c, send, recv, NoNetwork), client, early_probe).await;
+        })
+    };
+    World { exec, a_task, early, net, obs, _h: h, a, b }
 }
 
 #[derive(Clone, Copy, Debug, PartialEq, Eq)]
@@ -398,6 +412,11 @@ fn run_one(cfg: &Cfg, prefix: &[usize]) -> Result<Outcome<RunResult>, String> {
             act => {
                 session_event(&w, act);
                 event = Some(act);
+                if matches!(act, Action::ExpireAtDevice | Action::Vanish(1)) {
+                    // the client opens one more exchange on that session at once
+                    w.early.set(true);
+                    w.exec.wake(w.a_task);
+                }
             }
         }
         w.exec.run()?;
@@ -431,7 +450,11 @@ fn run_one(cfg: &Cfg, prefix: &[usize]) -> Result<Outcome<RunResult>, String> {
     if tags.len() != before {
         v.push(("C10:message-handled-by-two-exchanges".to_string(), format!("handled {:?}", obs.handled)));
     }
-    if tags.iter().any(|t| (*t as usize) >= cfg.exchanges.len() && *t != 0x77 && *t != 0x78) {
+    if tags.contains(&0x79) || matches!(obs.early_probe.as_deref(), Some(s) if s.starts_with("reply:")) {
+        // an initiator message opens an exchange only on a session that is neither gone nor expired
+        v.push(("C10:new-exchange-opened-on-a-lost-or-expired-session".to_string(), format!("after {:?} a message opening a new exchange on the first session was handed to a handler (handled {:?}); the client got {:?}", event, obs.handled, obs.early_probe)));
+    }
+    if tags.iter().any(|t| (*t as usize) >= cfg.exchanges.len() && *t != 0x77 && *t != 0x78 && *t != 0x79) {
         v.push(("C10:handler-saw-a-message-nobody-sent".to_string(), format!("handled {:?}", obs.handled)));
     }
     // the receive path is not wedged: the probes are answered. The probe on the first session is
